@@ -217,6 +217,29 @@ class HKR(H):
         self.recreated.append((other, comp))
 
 
+class HK(H):
+    """on_remove takes the *other* entity (1 <-> 2) with it: deleted at
+    once, from inside the callback - also when that entity owns a
+    component of this very class (whose own on_remove then does nothing:
+    the first one is still busy)."""
+    killed = None
+
+    def h_removed(self, entity, world):
+        super().h_removed(entity, world)
+        if entity not in (1, 2) or self.busy:
+            return
+        other = 3 - entity
+        if not world.get_components(other):
+            return
+        busy = self.busy if isinstance(self.busy, list) else []
+        busy.append(1)
+        try:
+            world.delete_entity(other, immediate=True)
+        finally:
+            busy.pop()
+        self.killed.append(other)
+
+
 class HS(H):
     """One-shot: on_add detaches its own component again."""
     gone = None
@@ -268,7 +291,7 @@ class _Types(dict):
         return dict.__contains__(self, name)
 
 
-TYPES = _Types({c.__name__: c for c in (A, X, N, H, HB, HX, HD, HZ, HY, HR, HS, HKR,
+TYPES = _Types({c.__name__: c for c in (A, X, N, H, HB, HX, HD, HZ, HY, HR, HS, HK, HKR,
                                          P, OA)})
 
 
@@ -387,6 +410,7 @@ class WorldDriver:
         ctx.procs = {}
         ctx.callback_errors = []
         ctx.raised = []          # (label, entity) of callbacks that raised
+        ctx.killed = []          # entities deleted at once by an HK callback
         ctx.listener_errors = []
         ctx.busy = []
         ctx.op_new = []          # components created by the running operation
@@ -449,6 +473,9 @@ class WorldDriver:
         if isinstance(comp, H):
             comp.sink = ctx.callback_errors
             comp.raised = ctx.raised
+            comp.killed = ctx.killed
+            if not isinstance(comp.busy, list):
+                comp.busy = ctx.busy
             if 'L' in self.own:
                 comp.known = ctx.comps
                 comp.busy = ctx.busy
@@ -764,8 +791,17 @@ class WorldDriver:
             try:
                 w.clear()
             except Exception as exc:
+                if ctx.killed:
+                    # a callback deleted another entity in the middle of
+                    # clear(): as for entities created meanwhile, what
+                    # clear() does then is not specified, not explored
+                    del ctx.killed[:]
+                    raise Pruned('clear() while a callback deletes entities')
                 self.fail('Q', 'op_raised', f'clear raised {exc!r}',
                           op='clear')
+            if ctx.killed:
+                del ctx.killed[:]
+                raise Pruned('clear() while a callback deletes entities')
             if ctx.recreated:
                 # a callback created an entity in the middle of clear():
                 # whether it survives depends on the order in which clear()
@@ -861,6 +897,15 @@ class WorldDriver:
                 ctx.pending.add(e)
 
     def _apply_recreated(self, ctx, events):
+        for other in ctx.killed:
+            # a callback deleted entity `other` at once
+            ctx.hits['callback_deletes_other_entity'] += 1
+            if other in ctx.rows:
+                if self._drop_row(ctx, other, events):
+                    ctx.hits['callback_deletes_pending_entity'] += 1
+            ctx.pending.discard(other)
+            ctx.ghost.discard(other)
+        del ctx.killed[:]
         for other, comp in ctx.recreated:
             # a callback deleted entity `other` at once and re-created it
             ctx.hits['callback_recreates_other_entity'] += 1
